@@ -1261,9 +1261,18 @@ class RTCSctpTransport(AsyncIOEventEmitter):
         # handle gap blocks
         loss = False
         if chunk.gaps:
+            # only the TSNs up to the highest outstanding one matter, do not
+            # spend time on gap blocks beyond it
+            if self._sent_queue:
+                limit = (
+                    self._sent_queue[-1].tsn - chunk.cumulative_tsn
+                ) % SCTP_TSN_MODULO
+            else:
+                limit = 0
             seen = set()
+            highest_seen_tsn = chunk.cumulative_tsn
             for gap in chunk.gaps:
-                for pos in range(gap[0], gap[1] + 1):
+                for pos in range(gap[0], min(gap[1], limit) + 1):
                     highest_seen_tsn = (chunk.cumulative_tsn + pos) % SCTP_TSN_MODULO
                     seen.add(highest_seen_tsn)
 
